@@ -355,7 +355,7 @@ func (e *env) request(world *World, docBytes []byte, q ReqSpec, again bool) (han
 			if r.Body == nil {
 				return nil
 			}
-			data, _, _ := simenv.ReadAllLimited(r.Body, 97, 1<<14)
+			data, _, _ := simenv.ReadAllLimited(r.Body, 97, 1<<14+8*len(orig))
 			return data
 		}
 		switch {
@@ -481,7 +481,7 @@ func (e *env) request(world *World, docBytes []byte, q ReqSpec, again bool) (han
 		var finalErr error
 		finalReads := 0
 		if req.Body != nil {
-			final, finalReads, finalErr = simenv.ReadAllLimited(req.Body, s.ReadBuf, 1<<16)
+			final, finalReads, finalErr = simenv.ReadAllLimited(req.Body, s.ReadBuf, 1<<16+8*len(orig))
 			req.Body.Close()
 		}
 		log.Add("handler", "read-forwarded-body", fmt.Sprint(len(final)), fmt.Sprint(finalErr))
@@ -564,7 +564,7 @@ func (e *env) request(world *World, docBytes []byte, q ReqSpec, again bool) (han
 			}
 			if req.GetBody != nil {
 				if rc, err := req.GetBody(); err == nil && rc != nil {
-					again, _, _ := simenv.ReadAllLimited(rc, 512, 1<<16)
+					again, _, _ := simenv.ReadAllLimited(rc, 512, 1<<16+8*len(orig))
 					if !bytes.Equal(again, final) {
 						violate("C13", "R1-getbody", bodySig("getbody-stale"), fmt.Sprintf("GetBody yields %q but the forwarded body was %q", simfw.Trunc(string(again), 100), simfw.Trunc(string(final), 100)))
 					}
@@ -777,7 +777,7 @@ func (e *env) checkIdempotent(docBytes []byte, q ReqSpec, after snapshot, final 
 	a0 := snap(req)
 	var again []byte
 	if req.Body != nil {
-		again, _, _ = simenv.ReadAllLimited(req.Body, 512, 1<<16)
+		again, _, _ = simenv.ReadAllLimited(req.Body, 512, 1<<16+8*len(final))
 	}
 	var x, y any
 	bodySame := bytes.Equal(again, final) || (json.Unmarshal(again, &x) == nil && json.Unmarshal(final, &y) == nil && reflect.DeepEqual(x, y))
@@ -907,7 +907,7 @@ func (e *env) response(world *World, docBytes []byte, p RespSpec, again bool) (r
 			violate("readable", sig("body-nil"), fmt.Sprintf("input.Body is nil after ValidateResponse (status %d, verdict %v)", p.Status, verr))
 			return
 		}
-		data, _, rerr := simenv.ReadAllLimited(in.Body, s.ReadBuf, 1<<16)
+		data, _, rerr := simenv.ReadAllLimited(in.Body, s.ReadBuf, 1<<16+8*len(orig))
 		if st.FaultFired {
 			res.Fault("respbody_" + p.Chunk.FaultKind + "_at_next_reader")
 			return // validation never touched the stream; the next reader met the fault itself
